@@ -132,7 +132,7 @@ impl<'a> Selector<'a> {
         let start_pos = if let Some(Path::Current) = paths.first() {
             current.expect("missing current position").clone()
         } else {
-            Position::Container((0, root.len()))
+            Self::root_position(root)
         };
         poses.push_back(start_pos);
 
@@ -171,6 +171,17 @@ impl<'a> Selector<'a> {
             }
         }
         Ok(poses)
+    }
+
+    // The root of a scalar value is the scalar itself and not a container,
+    // so that it can be compared in filters and wrapped as an array element.
+    fn root_position(root: &[u8]) -> Position {
+        if let Ok((rest, (SCALAR_CONTAINER_TAG, _))) = decode_header(root) {
+            if let Ok((_, (jty, jlength))) = decode_jentry(rest) {
+                return Position::Scalar((jty, 8, jlength));
+            }
+        }
+        Position::Container((0, root.len()))
     }
 
     fn select_path(
@@ -521,7 +532,7 @@ impl<'a> Selector<'a> {
                 if let Some(Path::Current) = paths.first() {
                     poses.push_back(pos.clone());
                 } else {
-                    poses.push_back(Position::Container((0, root.len())));
+                    poses.push_back(Self::root_position(root));
                 }
 
                 for path in paths.iter().skip(1) {
